@@ -151,6 +151,15 @@ CHECKS = {
             '(target, spec) pair through a real `python -m glom` sub-process.',
             'In-process driving replaces sys.stdin/stdout/stderr; a malformed spec may surface the literal parser\'s exception.',
             '3/C19'),
+    'C06': ('model_checking',
+            'explicit-state search over histories of glom calls / cache fills / PATH_STAR toggles / registrations, each replayed on the real library in a pristine forked child and compared with cold outcomes from fresh interpreters; plus exhaustive frame-condition snapshots over a pool',
+            'All event histories of depth <= 2 (thorough: 3, plus changer-prefixed depth-4 ones and one history with 10001 path strings at the real cache bound) over 28 colliding pool '
+            'calls (same path text / same spec object against different targets, wildcards over literal * keys, user types, failing calls whose trace is the outcome), PATH_STAR toggle, '
+            '3 registrations and cache fills with the path-cache bound lowered to 4: every call event and all 28 pool entries at the end of each history equal the outcome of the same call '
+            'made first in a fresh interpreter in the same configuration (448 cold interpreter runs); distinct library-level states reached are counted. Frame condition: 613 non-mutating '
+            '(target, spec, scope) triples from eight other generators, identity-preserving deep snapshots of target, spec object graph and caller scope before/after two evaluations.',
+            'Configuration = (PATH_STAR, set of registrations); histories deeper than the bound and the free-running GC are out of reach.',
+            '3/C06'),
 }
 
 NOT_YET = {}
